@@ -192,6 +192,28 @@ def load_src(relpath):
     return _src_cache[key]
 
 
+# The derives a stub of a real type stands for (R6/R7: "derived PartialEq / Eq / Clone / Hash / Ord are structural").  The ledger
+# shared/derives.json holds, per extracted struct / enum, the semantic derives of the pinned tree; a type that no longer derives one of
+# them (a hand-written impl took its place) is outside what the stubs assume: lost anchor (undecided), never an alarm.
+SEMANTIC_DERIVES = ("PartialEq", "Eq", "Clone", "Hash", "PartialOrd", "Ord")
+_DERIVES = None
+def derive_list(attrs):
+    out = []
+    for m in re.finditer(r"#\s*\[\s*derive\s*\(([^)]*)\)\s*\]", attrs):
+        out += [w.strip().split("::")[-1] for w in m.group(1).split(",") if w.strip()]
+    return out
+def check_derives(locator, kind, it):
+    global _DERIVES
+    if _DERIVES is None:
+        try: _DERIVES = json.load(open(os.path.join(VERIF, "shared", "derives.json")))
+        except Exception: _DERIVES = {}
+    key = " ".join(locator.split()[:3])
+    have = derive_list(it.attrs)
+    for d in _DERIVES.get(key, []):
+        if d not in have:
+            raise LostAnchor("%s no longer derives %s: the stubs assume the DERIVED (structural) %s of this type (R6/R7)" % (key, d, d))
+
+
 def locate(locator):
     """returns (src, kind, item, extra) ; kind in fn/struct/enum/closure/block"""
     parts = locator.split()
@@ -333,6 +355,7 @@ def build_item(spec, vacuity=False, unit_calls=None):
         orig = text[it.attr_start:hi]
         out_start = region_start
         report["dropped_attrs"] = "" if spec.keep_attrs else it.attrs.strip()
+        check_derives(spec.locator, kind, it)
         for (cnt, rx, repl, rkind) in spec.rewrites:
             region = text[it.start:hi]
             ms = list(re.finditer(rx, region))
